@@ -50,6 +50,8 @@ func VfC17_Dispatch() {
 	var want []int      // expected instance calls
 	var wantReply []int // expected reply types, in order, per child
 	var wantReplies [][]int
+	var killAfter []int // replies that must have been written when each termination signal is sent
+	wf := 0             // well-formed requests so far (each gets exactly one reply)
 	for child := 0; child < 2; child++ {
 		c, p := vfNewConn()
 		peers = append(peers, p)
@@ -69,6 +71,7 @@ func VfC17_Dispatch() {
 				} else {
 					p.script([]byte{typ, 0, 2, '{', '}'}, 5, true)
 				}
+				wf++
 				switch messageType(typ) {
 				case shutdownAdminReq:
 					want = append(want, vfAdmin)
@@ -81,6 +84,7 @@ func VfC17_Dispatch() {
 					wantReply = append(wantReply, int(drainListenersReply))
 				case terminateReq:
 					want = append(want, vfKill)
+					killAfter = append(killAfter, wf)
 					wantReply = append(wantReply, int(terminateReply))
 				default:
 					wantReply = append(wantReply, int(unknownReply))
@@ -104,6 +108,9 @@ func VfC17_Dispatch() {
 	for _, w := range want {
 		if w == vfKill {
 			nd.Assert(ki < len(order), "terminate request sends the termination signal")
+			if ki < len(order) && ki < len(killAfter) {
+				nd.Assert(order[ki]>>8 == killAfter[ki], "the terminate request is acknowledged before the process is signalled")
+			}
 			ki++
 		} else {
 			nd.Assert(ai < len(inst.log) && inst.log[ai] == w, "each requested step is performed once, in the order requested")
